@@ -14,7 +14,7 @@ TRUST = ("Trusted: TLC evaluator, Json/IOUtils community modules, BigNum java ov
 MANIFEST = {
     "engine": "tlc+go-harness", "design_ref": "DESIGN.md section 4 (C15)",
     "technique": "TLA+ spec Accum.tla; TLC exhaustive MC (exact and all-roundings models); one TLC-generated behaviour per transition replayed on the real accum package; recorded histories trace-validated by TLC with BigNum",
-    "text": "Accum.tla models the exported accumulator API (grow, create, add/remove/update shares, interval variants, set interval value, add unclaimed, claim, delete, failing calls) with a ghost 'ideal' = sum over time of growth-while-held x shares computed the naive way. TLC checks total = sum of shares, |claimable - ideal| <= nUpd/2 ulp, claim = floor(ideal) within that tolerance, claim resets only the claimer, deleted/claimed-empty positions vanish and failing calls change nothing, exhaustively on a bounded model with exact products (4.1e5 states quick, 3.4e6 thorough) and on one where every rounding to nearest is explored; every transition of a bounded exact model (4.2e4 quick, 3.9e5 thorough) is executed on the real osmoutils/accum over a MemDB store with fresh, held and two alternating handles and compared (outcome, payouts, full store state); seeded random histories (2-6 positions, 1-3 denoms, 18-decimal values from dust to 1e32, plain / free interval / concentrated-liquidity usage patterns, ~12% failing calls) recorded from the real code are validated line by line by TLC with every property as invariant.",
+    "text": "Accum.tla models the exported accumulator API (grow, create, add/remove/update shares, interval variants, set interval value, add unclaimed, claim, delete, failing calls) with a ghost 'ideal' = sum over time of growth-while-held x shares computed the naive way. TLC checks total = sum of shares, |claimable - ideal| <= nUpd/2 ulp, claim = floor(ideal) within that tolerance, claim resets only the claimer, deleted/claimed-empty positions vanish and failing calls change nothing, exhaustively on a bounded model with exact products (4.1e5 states quick, 3.4e6 thorough) and on one where every rounding to nearest is explored (1.6e5 / 2.3e6); every transition of a bounded exact model (4.2e4 quick, 3.9e5 thorough) is executed on the real osmoutils/accum over a MemDB store with fresh, held and two alternating handles and compared (outcome, payouts, full store state); seeded random histories (2-6 positions, 1-3 denoms, 18-decimal values from dust to 1e32, plain / free interval / concentrated-liquidity usage patterns, ~12% failing calls) recorded from the real code are validated line by line by TLC with every property as invariant.",
     "note": TRUST + " Preconditions of the property are respected by the drivers: a name is created only while it does not exist (NewPosition overwrites silently), 0 <= interval value <= accumulator value (DecCoins.Sub panics otherwise), non-negative growth/rewards. Handles are not used stale except where the code re-reads the total from the store.",
 }
 BUILD = [("./lite/accum/", "accum")]
@@ -135,12 +135,15 @@ def mirror(lines):
 def run(ctx):
     q = ctx.quick
     cov = {"samples": []}
+    # development aid: VERIF_C15_LEGS=trace runs one binding direction alone (e.g. to see that each
+    # direction catches a mutant by itself); the registered check always runs all three
+    legs = os.environ.get("VERIF_C15_LEGS", "mc,replay,trace").split(",")
     # 1. design: exhaustive model checking of the bounded spec
     ctx.leg = "mc"
     mcs = [("exact", EXACT, 6 if q else 7, "ExactTracks"), ("round", ROUND, 5 if q else 6, "")]
     states = trans = 0
     cov["mc"] = {}
-    for name, consts, depth, extra in mcs:
+    for name, consts, depth, extra in (mcs if "mc" in legs else []):
         r = vlib.tlc("MCAccum.tla", "mc.cfg", workers=vlib.NCPU, timeout=3000, heap="12g", tag="C15-mc",
                      cfg_text=MC_CFG % dict(consts, depth=depth, inv=PROPS % extra), extra=["-coverage", "1000"], keep=True)
         vlib.tlc_must_pass(r, "MCAccum " + name)
@@ -157,7 +160,19 @@ def run(ctx):
 
     binary = vlib.build_test("./lite/accum/", "accum")
 
+    replayed, res = 0, {"runs": 0, "steps": 0, "last_ops": {}}
+    if "replay" in legs:
+        replayed, res, d_, g_ = replay_leg(ctx, binary, cov)
+        states += d_
+        trans += g_
+    if "trace" not in legs:
+        return
+    trace_leg(ctx, binary, cov, states, trans, replayed, res)
+
+
+def replay_leg(ctx, binary, cov):
     # 2. spec -> impl: every transition of the bounded exact model, replayed on the real package
+    q = ctx.quick
     ctx.leg = "replay"
     gdepth = 4 if q else 5
     r = vlib.tlc("MCAccum.tla", "gen.cfg", workers=min(vlib.NCPU, 8), timeout=3000, heap="12g", tag="C15-gen", keep=True,
@@ -189,11 +204,12 @@ def run(ctx):
                     "real accumulator deviates from the specification on a generated behaviour (%s handle) at call %d (%s): %s (want %s, got %s)"
                     % (m["mode"], m["step"], m["op"], m["what"], json.dumps(m["want"])[:300], json.dumps(m["got"])[:300]),
                     {"mismatch": m, "all_mismatches": mm, "behaviour": json.loads(beh), "unit": EXACT["unit"]})
-    states += r.distinct
-    trans += r.generated
-    replayed = res["behaviours"]
+    return res["behaviours"], res, r.distinct, r.generated
 
+
+def trace_leg(ctx, binary, cov, states, trans, replayed, res):
     # 3. impl -> spec: recorded random histories validated line by line
+    q = ctx.quick
     ctx.leg = "trace"
     nh, nops = (48, 200) if q else (480, 400)
     ctx.params = {"histories": nh, "ops": nops}
@@ -212,6 +228,10 @@ def run(ctx):
             if e["e"] == "op":
                 key = e["op"] + (":ok" if e["ok"] else ":fail")
                 kinds[key] = kinds.get(key, 0) + 1
+                if e["op"] == "claim" and e["ok"] and all(p["n"] != e["n"] for p in e["st"]["pos"]):
+                    kinds["claim:position-vanished"] = kinds.get("claim:position-vanished", 0) + 1
+                if e["op"] == "claim" and e["ok"] and any(x["s"] != 0 for x in e["res"]):
+                    kinds["claim:paid-coins"] = kinds.get("claim:paid-coins", 0) + 1
             else:
                 for k in ("mode", "api", "values"):
                     kinds[k + ":" + e[k]] = kinds.get(k + ":" + e[k], 0) + 1
@@ -221,10 +241,16 @@ def run(ctx):
     for o in FAILING:
         if kinds.get(o + ":fail", 0) == 0:
             raise Infra("recorder produced no failing %s call: driver is not exercising the property" % o)
+    for k in ("claim:position-vanished", "claim:paid-coins", "mode:fresh", "mode:held", "mode:two",
+              "api:plain", "api:interval", "api:cl"):
+        if kinds.get(k, 0) == 0:
+            raise Infra("recorder produced no %s: driver is not exercising the property" % k)
     try:
         gen_, dist_, nlines = vlib.validate_trace("C15", "TraceAccum.tla", "TraceAccum.cfg", trace, timeout=2400)
     except Violation as v:
         ev = json.loads(v.detail.get("offending_event") or "{}")
+        if ev.get("op") == "harness-panic":
+            raise Infra("the recorder itself panicked on a state the specification accepted: " + str(ev.get("err")))
         sig = "trace:%s:%s:%s" % (ev.get("op", "?"), "ok" if ev.get("ok") else "fail", v.detail.get("violated") or "step")
         what = "%s: call %s(%s) %s" % (v.what, ev.get("op"), ev.get("n"), "succeeded" if ev.get("ok") else "failed: " + str(ev.get("err")))
         ctx.finding(sig, what, v.detail)
